@@ -394,10 +394,19 @@ struct FlatSetEngine : EngineBase {
         Val k = nv();
         bool present = m.count(k) != 0;
         set_op("erase(key)", st(a), present ? "present" : "absent", fmt("S%d key=%d", a, k.key));
-        E *e = make_hold(k);
         size_t r = 99;
-        window([&] { r = s.erase(*e); });
-        drop_hold();
+        if (present && rng.chance(1, 3)) {
+          // the key is a reference to the element of the set itself (as std::set allows): it dies during the call
+          set_op("erase(key)", st(a), "own-element", fmt("S%d key=%d", a, k.key));
+          const E *own = nullptr;
+          { MonScope mm; const Set &cs0 = s; for (auto it = cs0.begin(); it != cs0.end(); ++it) if (!m.key_comp()(EI<E>::val(*it), k) && !m.key_comp()(k, EI<E>::val(*it))) { own = &*it; break; } }
+          if (!own) { violation("C03", "model.contents", "an element of the model is not in the set"); return; }
+          window([&] { r = s.erase(*own); });
+        } else {
+          E *e = make_hold(k);
+          window([&] { r = s.erase(*e); });
+          drop_hold();
+        }
         MonScope mm;
         size_t er = m.erase(k);
         if (!threw && r != er) violation("C03", "model.erase_count", fmt("erase(key) returned %zu, std::set %zu", r, er));
